@@ -16,7 +16,8 @@ def L(items, ty=None):
 THEOREMS = ['C01_predictions_spec', 'C01_nullable_spec', 'C01_chart_is_language', 'C01_alg_sound', 'C01_alg_complete', 'C01_basic_trace',
             'C01_fuel_suffices', 'C01_basic', 'C01_general', 'C01_example',
             'C01_dynamic_ends', 'C01_dynamic_trace', 'C01_dynamic_fuel', 'C01_dynamic_sound', 'C01_dynamic_complete',
-            'C01_dynamic_strings', 'C01_dynamic_example']
+            'C01_dynamic_strings', 'C01_dynamic_example', 'C01_distribute_language', 'C01_distribute_nodup',
+            'C01_distribute_example']
 GEN_DEPS = []
 RULE = ('random CFGs (<=5 non-terminals, <=4 single-character terminals, <=3 alternatives of length <=3; nullable '
         'alternatives, left/right/middle recursion, unit cycles, ambiguity, useless rules; optionally EBNF operators) '
@@ -37,15 +38,22 @@ RULE = ('random CFGs (<=5 non-terminals, <=4 single-character terminals, <=3 alt
         'is not the longest) with string/regexp ignores, under dynamic and dynamic_complete: the regex engine\'s answers (the '
         'parser\'s own term_matcher on every terminal, position and truncation; the calls made during the parse must agree '
         'with them) are given to Earley/Dyn.dyn_parse as oracle tables; compared '
-        'inside Coq: item sets of every column and to_scan, the keys of delayed_matches after every scan, the outcome')
+        'inside Coq: item sets of every column and to_scan, the keys of delayed_matches after every scan, the outcome. '
+        'construct (seed independent) = EBNF-level source grammars (fixed corpus + random family with a fixed generator seed): '
+        'nested groups, groups whose distribution repeats a sibling alternative, repeated alternatives, duplicates through '
+        '? * + ~ [...], nullable/recursive/cyclic variants; construction terminates and succeeds or raises the documented '
+        'GrammarError exactly as an independent expander predicts; then all strings up to length 4 (thorough 5) against '
+        'the expander\'s flat rules')
 TRUSTED_BASE = ['hand model Earley/Alg.v of earley.Parser.predict_and_complete/scan/_parse/parse and Cfg/Analysis.v of '
                 'GrammarAnalyzer.expand_rule (tied by per-column item-set comparison and direct comparison of '
                 'Parser.predictions / NULLABLE)',
                 'hand model Earley/Dyn.v of xearley.Parser._parse/scan (tied by per-column item sets, delayed_matches keys '
                 'and outcome on recorded regex answers); the regex engine itself is an oracle (rmatch/rtrunc) - its answers '
                 'are recorded, not modelled; hypothesis fwd (no empty match) is lark\'s construction-time zero-width check',
-                'the grammar-of-grammars front end and EBNF->BNF compilation are not modelled (compiled rules are read '
-                'back from lark)']
+                'the grammar-of-grammars front end and the operator expansion of EBNF_to_BNF are not modelled (compiled rules '
+                'are read back from lark; C09 owns the operators); group distribution / flattening / duplicate removal '
+                '(SimplifyRule_Visitor) is modelled at set level by Cfg/AnalysisDistribute.flat and tied on the rule bodies of '
+                'the construct stream']
 ASSUMPTIONS = ['terminals of the main streams are distinct single-character strings, so the basic lexer\'s token string '
                'is the character string', 'SPPF construction does not influence item creation (not modelled)']
 IMPORTS = 'From LV Require Import Cfg.Grammar Cfg.Analysis Earley.Spec Earley.Alg Earley.AlgCheck.'
@@ -941,6 +949,182 @@ def run_dyn_coq(ctx, cases, meta):
     ctx.coq_cases_checked += sum(len(g[3]) for g in groups) - len(groups)
 
 
+# ---------------------------------------------------------------------------------------------
+# construct stream: EBNF-level source grammars; expectation (documented GrammarError or not) and language from the
+# independent expander props/ebnf_source_gen.py
+def check_source_grammar(ctx, rng, g, maxlen, origin, dist_cases=None, dist_seen=None):
+    from props import ebnf_source_gen as esg
+    gtext = esg.render(g)
+    exp = esg.Expander(g)
+    coll = exp.collisions()
+    expected = 'GrammarError' if coll else 'ok'
+    larks = {}
+    for lexer in LEXERS:
+        _DIST['on'] = dist_cases is not None and lexer == 'basic'
+        del _DIST['log'][:]
+        try:
+            st, obj = build(gtext, lexer, 'forest')
+        finally:
+            _DIST['on'] = False
+        if dist_cases is not None and lexer == 'basic':
+            for before, after in _DIST['log']:
+                term = dist_case(before, after)
+                if term is not None and term not in dist_seen:
+                    dist_seen.add(term)
+                    dist_cases.append((term, gtext))
+        ctx.count('construct:build', key=(gtext, lexer), nontrivial=True, construct=st, expected_construct=expected,
+                  origin=origin)
+        w = {'grammar': gtext, 'lexer': lexer, 'ambiguity': 'forest', 'mode': 'construct-source',
+             'expected_construct': expected, 'observed': '%s %s' % (st, str(obj)[:160] if st != 'ok' else '')}
+        if st == 'ok':
+            larks[lexer] = obj
+            if expected != 'ok':
+                ctx.violation('correspondence:documented-GrammarError',
+                              {'no_longer_checks': 'which grammars raise the documented GrammarError', **w}, False,
+                              'the expander predicts colliding optionals %s but the parser was constructed' % (coll[:2],))
+        elif st == 'GrammarError':
+            if expected == 'ok':
+                ctx.violation('construct', w, True,
+                              'constructing the parser for a well-formed grammar whose optional items do not collide '
+                              'raised GrammarError: %s' % obj)
+            elif 'Rules defined twice' not in str(obj):
+                ctx.violation('construct', w, True, 'GrammarError other than the documented one: %s' % obj)
+        else:
+            ctx.violation('construct', w, True, 'constructing the parser %s'
+                          % ('did not terminate within the timeout' if st == 'hang' else 'raised %s' % obj))
+    if expected != 'ok' or not larks:
+        return
+    rules = exp.bnf()
+    alphabet = esg.alphabet(g) or ['a']
+    level, texts = [''], ['']
+    for _ in range(maxlen):
+        level = [s + c for s in level for c in alphabet]
+        texts += level
+    hangs = 0
+    for text in texts:
+        tspans = {}
+        for k, ch in enumerate(text):
+            tspans.setdefault(ch, set()).add((k, k + 1))
+        want = member(rules, 'start', len(text), tspans)
+        for lexer, lk in larks.items():
+            status, pos, log = run_parse(lk, text)
+            if status == 'hang':
+                status, pos, log = run_parse(lk, text, timeout=30.0)
+            ctx.count('construct:language', key=(gtext, lexer, text), nontrivial=len(text) >= 2, lexer=lexer, outcome=status)
+            w = {'grammar': gtext, 'lexer': lexer, 'ambiguity': 'forest', 'text': text, 'mode': 'parse-source',
+                 'expected_accept': want, 'observed': status}
+            if status == 'hang':
+                ctx.violation('hang', w, True, 'parse did not terminate within the timeout')
+                ctx.extra['hangs'] = ctx.extra.get('hangs', 0) + 1
+                hangs += 1
+            elif status.startswith('other:') or status.startswith('UnexpectedInput:'):
+                ctx.violation('exception-class', w, True, 'parse raised %s' % status)
+            elif (status == 'accept') != want:
+                ctx.violation('language', w, True, '%s %r although the source grammar (groups distributed, operators '
+                              'expanded independently) %s it' % ('accepted' if status == 'accept' else 'rejected (%s)' % status,
+                                                                 text, 'derives' if want else 'does not derive'))
+        if hangs >= 2 or ctx.extra.get('hangs', 0) >= 8:
+            break
+
+
+def run_construct_stream(ctx, wide, dist_cases=None):
+    """seed independent: a fixed corpus and a random family drawn from a fixed generator seed"""
+    import random
+    from props import ebnf_source_gen as esg
+    rng = random.Random(20240923)
+    maxlen = ctx.scale(4, 5)
+    seen = set()
+    if dist_cases is not None:
+        patch_simplify()
+    for g in esg.CORPUS:
+        check_source_grammar(ctx, rng, g, maxlen, 'corpus', dist_cases, seen)
+    for _ in range(ctx.scale(45, 500) * wide):
+        check_source_grammar(ctx, rng, esg.gen_source_grammar(rng), maxlen, 'random', dist_cases, seen)
+    ctx.sample({'stream': 'construct', 'grammar': esg.render(esg.CORPUS[0]),
+                'expander': [(n, [[str(x[1]) if x != esg.MARK else '<None>' for x in s] for s in seqs])
+                             for n, seqs in esg.Expander(esg.CORPUS[0]).flat.items()]})
+
+
+# ---------------------------------------------------------------------------------------------
+# SimplifyRule_Visitor against Cfg/AnalysisDistribute.flat: the rule body before the visitor (groups still nested) and
+# the alternatives after it, captured at the outermost visit() calls of Grammar.compile
+DIST_IMPORTS = 'From LV Require Import Cfg.Grammar Cfg.AnalysisDistribute.'
+_DIST = {'on': False, 'depth': 0, 'log': []}
+
+
+def patch_simplify():
+    from lark import load_grammar as lg
+    if getattr(lg.SimplifyRule_Visitor.visit, '_lv', False):
+        return
+    orig = lg.SimplifyRule_Visitor.visit
+
+    def visit(self, tree):
+        if not _DIST['on'] or _DIST['depth'] > 0:
+            return orig(self, tree)
+        import copy
+        before = copy.deepcopy(tree)
+        _DIST['depth'] += 1
+        try:
+            r = orig(self, tree)
+        finally:
+            _DIST['depth'] -= 1
+        _DIST['log'].append((before, tree))
+        return r
+    visit._lv = True
+    lg.SimplifyRule_Visitor.visit = visit
+
+
+def dist_case(before, after):
+    """Coq term (gexp, observed alternatives) or None when the rule uses something outside the model (aliases)"""
+    from lark.tree import Tree
+    from lark.grammar import Symbol
+    ids = {}
+
+    def sym(s):
+        key = (s.is_term, s.name)
+        if key not in ids:
+            ids[key] = len(ids)
+        return '%s %d' % ('T' if s.is_term else 'NT', ids[key])
+
+    def conv(t):
+        if isinstance(t, Tree):
+            if t.data == 'expansions':
+                return 'GAlt %s' % L(['(%s)' % conv(c) for c in t.children], 'gexp')
+            if t.data == 'expansion':
+                return 'GSeq %s' % L(['(%s)' % conv(c) for c in t.children], 'gexp')
+            raise ValueError(t.data)
+        if isinstance(t, Symbol):
+            return 'GSym (%s)' % sym(t)
+        raise ValueError(type(t).__name__)
+    try:
+        e = conv(before)
+        if not (isinstance(after, Tree) and after.data == 'expansions'):
+            return None
+        obs = []
+        for alt in after.children:
+            if not (isinstance(alt, Tree) and alt.data == 'expansion' and all(isinstance(x, Symbol) for x in alt.children)):
+                return None
+            obs.append(L([sym(x) for x in alt.children], 'symbol'))
+        return '(%s, %s)' % (e, L(obs, '(list symbol)'))
+    except ValueError:
+        return None
+
+
+def run_dist_coq(ctx, cases):
+    what = 'Cfg/AnalysisDistribute.flat vs load_grammar.SimplifyRule_Visitor (flat alternatives of every rule body, as a duplicate-free set)'
+    if not cases:
+        return
+    terms = [c[0] for c in cases]
+    bad, errs = ctx.coq_bad_indices('c01dist', DIST_IMPORTS, 'distribute_check', terms, chunk=35)
+    for e in errs:
+        ctx.violation('correspondence:coq-eval', {'no_longer_checks': what, 'error': e}, False, e[:300])
+    for i in bad[:10]:
+        ctx.violation('correspondence:' + what, {'no_longer_checks': what, 'grammar': cases[i][1], 'mode': 'construct-source',
+                                                 'expected_construct': 'ok'}, False,
+                      'the alternatives lark compiled for a rule of %r differ from distribution + dedup of its body' % cases[i][1])
+    ctx.extra['distribute_cases_checked_in_coq'] = len(terms)
+
+
 def correspond(ctx):
     patch_lark()
     rng = ctx.rng
@@ -969,16 +1153,20 @@ def correspond(ctx):
         check_grammar(ctx, rng, render(rng, names, chars, g), 'ignore', cases, meta, seen, n_exh // 2, n_extra,
                       ignore=True)
     run_text_streams(ctx, rng, wide)
+    dist_cases = []
+    run_construct_stream(ctx, wide, dist_cases)
     run_dyn_stream(ctx, rng, wide, cases, meta)
     ctx.extra['lark_seconds'] = round(time.time() - t0, 1)
     run_exotic(ctx)
     t1 = time.time()
     from concurrent.futures import ThreadPoolExecutor
-    with ThreadPoolExecutor(max_workers=2) as ex:      # the two model comparisons are independent
+    with ThreadPoolExecutor(max_workers=3) as ex:      # the two model comparisons are independent
         f1 = ex.submit(run_coq, ctx, cases, meta)
         f2 = ex.submit(run_dyn_coq, ctx, cases, meta)
+        f3 = ex.submit(run_dist_coq, ctx, dist_cases)
         f1.result()
         f2.result()
+        f3.result()
     ctx.extra['coq_seconds'] = round(time.time() - t1, 1)
 
 
@@ -988,6 +1176,10 @@ def replay(ctx, case):
         return False
     patch_lark()
     st, obj = build(w['grammar'], w.get('lexer', 'basic'), w.get('ambiguity'))
+    if w.get('mode') == 'construct-source':
+        if w.get('expected_construct') == 'ok':
+            return st != 'ok'
+        return st != 'ok' and not (st == 'GrammarError' and 'Rules defined twice' in str(obj))
     if w.get('mode') == 'construct':
         return st != 'ok' and not (st == 'GrammarError' and 'Rules defined twice' in str(obj))
     if st != 'ok':
